@@ -4,13 +4,14 @@ Two parts:
  * theorems (coq/Props/C14.v, lemmas in coq/Lemmas/NoEscape*.v): for every modelled decoder / parser /
    deserialiser / validator / constructor the exception-faithful model never leaves the family
    (`*_no_escape`), for ALL inputs; where the faithful model does leave it the full statement is refuted with
-   a witness and the guard under which it holds is a `_partial` theorem (WifDecoder net_ver);
- * this module: the obligation list = every public entry point that takes str/bytes (built reflectively from
-   the package, so a new entry point is picked up), each driven with generic junk and structure-aware mutations
-   of valid encodings ("<entry>" cases: exception family + wall clock).  Entry points that have a model are in
-   addition compared with it on the same inputs ("model:<entry>" cases, MODEL_MAP below).  The rest is
-   differential fuzzing only -- a test, not a proof -- and the evidence lists which is which
-   (coverage.exhaustive_subdomains).
+   a witness and the guard under which it holds is a `_partial` theorem (Khovratovich-Law child key);
+ * this module: the obligation list = every public entry point that takes str/bytes (ENTRIES, built from the
+   package and the coin tables), each driven with generic junk and structure-aware mutations
+   of valid encodings ("<entry>" cases: exception family + wall clock).  Every entry point has a model and is in
+   addition compared with it on the same inputs ("model:<entry>" cases, MODEL_MAP below: first wave = the models of
+   the other properties' groups, second wave = groups bech32 / addrbech / cardmon and the thin compositions of
+   coq/Model/C14b.v, group c14b).  A new entry point without a model is differential fuzzing only -- a test, not a
+   proof -- and the evidence lists which is which (coverage.exhaustive_subdomains).
 """
 import time
 
@@ -21,33 +22,45 @@ from bip_utils.bip.bip38.bip38_ec import Bip38EcKeysGenerator
 from framework import Func, IN_FAMILY, exn_name
 
 MANIFEST = {
-    "text": "Coq theorems (one per modelled entry point, ~85: text/wire codecs, path parsers, BIP-39 and the other "
-            "mnemonic decoders/validators/generators, seed generators, extended-key and SLIP-32 deserialisers, WIF, "
-            "BIP-38, EC key byte constructors, master key from seed, 27 address decoders) that the exception-faithful "
-            "model never leaves the documented family, for all inputs and arbitrary hash/KDF/curve oracles; for all "
-            "~235 str/bytes entry points (enumerated reflectively): junk + structure-aware mutation run checking the "
-            "exception class and a wall-clock bound, and for the ~120 modelled ones a differential comparison with the "
-            "extracted model on the same inputs.",
-    "note": "Entry points without a model (Bech32/SegWit/CashAddr codecs and the address decoders on them, Cardano and "
-            "Monero addresses, wallet-level constructors) are covered by fuzzing only (listed in the evidence); the "
-            "Bech32-based address pipelines are proved relative to the codec decoder staying in the family; third-party "
-            "exception behaviour is observed, not proved; 'promptly' is a wall-clock test; the master-key loop's "
-            "termination is not a theorem (in_family_or_fuel).",
-    "technique": "Coq proof of no-escape for modelled entry points (error-site analysis: IndexError/OverflowError sites "
-                 "shown unreachable after the preceding length checks) + reflective entry-point census + mutation "
-                 "fuzzing against the exception family + model/implementation differential on the fuzz stream",
+    "text": "Coq theorems (116 theorems + 8 examples, one or more per modelled entry point: text/wire codecs incl. Bech32/SegWit/CashAddr, "
+            "path parsers, BIP-39 and the other mnemonic decoders/validators/generators/containers, seed generators, extended-key "
+            "and SLIP-32 deserialisers, WIF, BIP-38, EC key byte constructors, master keys and FromSeedAndPath of the SLIP-0010 "
+            "and Khovratovich-Law/Icarus/Byron-legacy classes, Bip44-family constructors, Monero/Substrate/Electrum key and wallet "
+            "constructors, the 40 address decoder classes (58 census entries) incl. Monero, Shelley, Byron) that the exception-faithful model never leaves the "
+            "documented family, for all inputs and arbitrary hash/KDF/curve oracles; for all 242 str/bytes entry points "
+            "(enumerated from the package): junk + structure-aware mutation run checking the exception class and a wall-clock "
+            "bound, and for every one of them a differential comparison with the extracted model on the same inputs.",
+    "note": "Every census entry point now has a model and a theorem; what remains outside proof: the models are hand "
+            "transcriptions tied to the code by the differential run; cbor2 / sr25519 / libsodium behaviour is observed (oracles), "
+            "not proved; 'promptly' is a wall-clock test; the termination of the master-key re-hash loops is not a theorem "
+            "(in_family_or_fuel); the Khovratovich-Law child key is refuted for out-of-range parents (finding C14-KHOLAW-OVERFLOW) "
+            "and proved under the bound every seed-derived key satisfies, and unconditionally for the derivator the property demands.",
+    "technique": "Coq proof of no-escape for modelled entry points (error-site analysis: IndexError/OverflowError/TypeError sites "
+                 "shown unreachable after the preceding length checks; fuel bounded by input length) + entry-point census + mutation "
+                 "fuzzing against the exception family (payload-level mutations re-encoded under valid Base58Check / Bech32 / CashAddr / "
+                 "CRC-32 / Keccak / Poly1305 checksums) + model/implementation differential on the fuzz stream",
     "ref": "7/C14",
 }
 RULE = ("Inputs per entry point: fixed junk list (empty, 1-3 symbols, NUL, non-ASCII, non-BMP, lone surrogate, "
         "over-long) + mutations of valid seeds (all truncations, extensions, splices, single-symbol flips, case "
-        "changes, payload-level corruption re-encoded with a valid checksum).  Entry points with a model are in addition "
-        "compared with it (cases 'model:<entry>') on the junk list, the seeds and a sample of the mutations (half of it "
-        "from the payload-level ones); inputs over 1500 symbols are model-compared for the path parsers only.")
+        "changes) + payload-level corruption (every short prefix, truncation / extension by 1, 8, 32 bytes, version / net "
+        "byte changes, field swaps, bit flips) re-encoded under a VALID checksum by the harness's own codecs for every "
+        "checksummed text format (table FORMATS: Base58Check incl. Ripple alphabet, EOS, Ergo, Monero block Base58 + "
+        "Keccak, SS58, Algorand, Stellar CRC16, Nano / Filecoin blake2b, Nimiq IBAN check; Bech32 / Bech32m / CashAddr at "
+        "5-bit and at byte level incl. header, witness version and length changes; CBOR-level mutations of Byron "
+        "addresses under a valid CRC-32 by an own CBOR encoder; HD-path plaintexts under a valid Poly1305 tag) + "
+        "cross-feeding: every valid example of every text decoder goes through every other text decoder and parameter "
+        "variant (payment id None / wrong length, other network), one representative per distinct error site recorded "
+        "and model-compared.  Every entry point is in addition compared with its model (cases 'model:<entry>') on the "
+        "junk list, the seeds, the cross-fed representatives and a sample of the mutations (half of it from the "
+        "payload-level ones; 120 per first-wave entry, 40 per second-wave entry, 10 where every model call runs "
+        "reference EC multiplications); inputs over 1500 symbols are model-compared for the path parsers only.")
 TRUSTED = ["the reflective census (dir(bip_utils) + name patterns) defines the obligation list"]
 ASSUMPTIONS = ["third-party libraries (coincurve, PyNaCl, cbor2, ecdsa) raise what they are observed to raise"]
 BUDGET = {"quick": 200, "thorough": 1500}
 
 SEED = bytes(range(1, 65))
+BYRON_HD_KEY = None
 ENTRIES = {}     # name -> dict(kind, call, seeds, slow)
 
 
@@ -108,6 +121,8 @@ def build():
         E(nm + ".DecodeAddr", "str", (lambda d_: lambda s: d_.DecodeAddr(s, net_tag=AdaShelleyAddrNetworkTags.MAINNET))(d), [a])
     byron = CardanoByronLegacy.FromSeed(SEED[:32])
     ba = byron.GetAddress(0, 0)
+    global BYRON_HD_KEY
+    BYRON_HD_KEY = byron.HdPathKey()
     E("AdaByronAddrDecoder.DecodeAddr", "str", lambda s: AdaByronAddrDecoder.DecodeAddr(s), [ba,
       Bip44.FromSeed(SEED, Bip44Coins.CARDANO_BYRON_ICARUS).DeriveDefaultPath().PublicKey().ToAddress()])
     E("AdaByronAddrDecoder.DecodeAddr[legacy]", "str",
@@ -121,6 +136,16 @@ def build():
     E("XmrIntegratedAddrDecoder.DecodeAddr", "str",
       lambda s: XmrIntegratedAddrDecoder.DecodeAddr(s, net_ver=mconf.IntegratedAddrNetVersion(), payment_id=bytes(range(8))),
       [mon.IntegratedAddress(bytes(range(8)))])
+    # parameter variants: no / wrong-length payment id expected, the other network's version bytes
+    E("XmrIntegratedAddrDecoder.DecodeAddr[payment_id=None]", "str",
+      lambda s: XmrIntegratedAddrDecoder.DecodeAddr(s, net_ver=mconf.IntegratedAddrNetVersion(), payment_id=None),
+      [mon.IntegratedAddress(bytes(range(8))), mon.PrimaryAddress()])
+    E("XmrIntegratedAddrDecoder.DecodeAddr[payment_id=7 bytes]", "str",
+      lambda s: XmrIntegratedAddrDecoder.DecodeAddr(s, net_ver=mconf.IntegratedAddrNetVersion(), payment_id=bytes(7)),
+      [mon.IntegratedAddress(bytes(range(8)))])
+    mtest = MoneroConfGetter.GetConfig(MoneroCoins.MONERO_TESTNET)
+    E("XmrAddrDecoder.DecodeAddr[MONERO_TESTNET]", "str", lambda s: XmrAddrDecoder.DecodeAddr(s, net_ver=mtest.AddrNetVersion()),
+      [Monero.FromSeed(SEED[:32], MoneroCoins.MONERO_TESTNET).PrimaryAddress(), mon.PrimaryAddress()])
     sub = Substrate.FromSeed(SEED[:32], SubstrateCoins.POLKADOT)
     sa = sub.PublicKey().ToAddress()
     E("SubstrateSr25519AddrDecoder.DecodeAddr", "str", lambda s: SubstrateSr25519AddrDecoder.DecodeAddr(s, ss58_format=0), [sa])
@@ -184,11 +209,23 @@ def build():
           [o.PrivateKey().Raw().ToBytes(), bytes(32), b"\xff" * 32, bytes(64), b"\xff" * 64])
         E(cname + ".FromPublicKey", "bytes", (lambda c_: lambda b: c_.FromPublicKey(b))(c),
           [o.PublicKey().RawCompressed().ToBytes(), o.PublicKey().RawUncompressed().ToBytes(), bytes(33), b"\x02" + b"\xff" * 32])
+    # a constructor followed by ONE derivation step: the key material accepted by FromPrivateKey / FromExtendedKey is the
+    # input, the path is fixed (theorem kholaw_child_key_refuted: a Khovratovich-Law parent with kL >= 2^256 - 2^227)
+    kh = Bip32KholawEd25519.FromSeed(SEED)
+    kh_bad = Bip32KholawEd25519.FromPrivateKey(b"\xff" * 64)
+    E("Bip32KholawEd25519.FromPrivateKey.ChildKey", "bytes", lambda b: Bip32KholawEd25519.FromPrivateKey(b).ChildKey(0),
+      [kh.PrivateKey().Raw().ToBytes(), b"\xff" * 64, b"\xff" * 32 + bytes(32), bytes(31) + b"\xf8" + bytes(32)])
+    E("Bip32KholawEd25519.FromExtendedKey.DerivePath", "str", lambda s: Bip32KholawEd25519.FromExtendedKey(s).DerivePath("0"),
+      [kh.PrivateKey().ToExtended(), kh.PublicKey().ToExtended(), kh_bad.PrivateKey().ToExtended()])
     for hc, coin in ((Bip44, Bip44Coins.BITCOIN), (Bip44, Bip44Coins.SOLANA), (Bip49, Bip49Coins.LITECOIN),
                      (Bip84, Bip84Coins.BITCOIN), (Bip86, Bip86Coins.BITCOIN), (Cip1852, Cip1852Coins.CARDANO_ICARUS)):
         o = hc.FromSeed(SEED, coin)
         acc = o.Purpose().Coin().Account(0)
         ks = [o.PrivateKey().ToExtended(), acc.PublicKey().ToExtended(), acc.PrivateKey().ToExtended()]
+        # the depth checks of Bip44Base.__init__: a public master key (below account level), a key one level below
+        # address index (Bip44DepthError both)
+        deep = o.Bip32Object().DerivePath("0'/0'/0'/0'/0'/0'")
+        ks += [o.PublicKey().ToExtended(), deep.PrivateKey().ToExtended(), deep.PublicKey().ToExtended()]
         tag = "%s[%s]" % (hc.__name__, coin.name)
         E(tag + ".FromExtendedKey", "str", (lambda h, c_: lambda s: h.FromExtendedKey(s, c_))(hc, coin), ks)
         E(tag + ".FromSeed", "bytes", (lambda h, c_: lambda b: h.FromSeed(b, c_))(hc, coin), [SEED, SEED[:15]])
@@ -350,21 +387,169 @@ def mutate_bytes(b, rng, budget):
     return out
 
 
+# ---- own reference codecs for the payload-level mutations (nothing below goes through bip_utils: the corrupted
+#      payload must be re-encoded under a VALID checksum by code that is independent of the library under test)
+B58_BTC = "123456789ABCDEFGHJKLMNPQRSTUVWXYZabcdefghijkmnopqrstuvwxyz"
+B58_XRP = "rpshnaf39wBUDNEGHJKLM4PQRST7VWXYZ2bcdeCg65jkm8oFqi1tuvAxyz"
+
+
+def b58e(b, alph=B58_BTC):
+    n = int.from_bytes(b, "big")
+    out = ""
+    while n:
+        n, r = divmod(n, 58)
+        out = alph[r] + out
+    return alph[0] * (len(b) - len(b.lstrip(b"\x00"))) + out
+
+
+def b58d(s, alph=B58_BTC):
+    n = 0
+    for c in s:
+        n = n * 58 + alph.index(c)          # ValueError on a foreign symbol
+    body = n.to_bytes((n.bit_length() + 7) // 8, "big")
+    return b"\x00" * (len(s) - len(s.lstrip(alph[0]))) + body
+
+
+def _sha256d4(b):
+    import hashlib
+    return hashlib.sha256(hashlib.sha256(b).digest()).digest()[:4]
+
+
+XMR_ENC_LENS = [0, 2, 3, 5, 6, 7, 9, 10, 11]
+
+
+def xmr58e(b):
+    out = ""
+    for i in range(0, len(b), 8):
+        blk = b[i:i + 8]
+        out += b58e(blk).lstrip("1").rjust(XMR_ENC_LENS[len(blk)], "1")
+    return out
+
+
+def xmr58d(s):
+    out = b""
+    for i in range(0, len(s), 11):
+        blk = s[i:i + 11]
+        n = XMR_ENC_LENS.index(len(blk))
+        out += b58d(blk)[-n:].rjust(n, b"\x00") if n else b""
+    return out
+
+
+def _b32e(b, alph=None):
+    import base64
+    t = base64.b32encode(b).decode().rstrip("=")
+    return t if alph is None else t.translate(str.maketrans("ABCDEFGHIJKLMNOPQRSTUVWXYZ234567", alph))
+
+
+def _b32d(t, alph=None):
+    import base64
+    if alph is not None:
+        if any(c not in alph for c in t):
+            raise ValueError(t)
+        t = t.translate(str.maketrans(alph, "ABCDEFGHIJKLMNOPQRSTUVWXYZ234567"))
+    return base64.b32decode(t + "=" * (-len(t) % 8))
+
+
+def _blake2b(b, n):
+    import hashlib
+    return hashlib.blake2b(b, digest_size=n).digest()
+
+
+def _keccak(b):
+    from Crypto.Hash import keccak
+    return keccak.new(digest_bits=256, data=b).digest()
+
+
+def _ripemd160(b):
+    from Crypto.Hash import RIPEMD160
+    return RIPEMD160.new(b).digest()
+
+
+def _sha512_256(b):
+    from Crypto.Hash import SHA512
+    return SHA512.new(b, truncate="256").digest()
+
+
+def _crc16_xmodem_le(b):
+    import binascii
+    return binascii.crc_hqx(b, 0).to_bytes(2, "little")
+
+
+NANO_ALPH, FIL_ALPH, NIM_ALPH = "13456789abcdefghijkmnopqrstuwxyz", "abcdefghijklmnopqrstuvwxyz234567", "0123456789ABCDEFGHJKLMNPQRSTUVXY"
+
+
+def _nim_check(b32):
+    return "%02d" % (98 - int("".join(str(int(c, 36)) for c in b32 + "NQ00")) % 97)
+
+
+def _ss58(prefix_and_payload):
+    return b58e(prefix_and_payload + _blake2b(b"SS58PRE" + prefix_and_payload, 64)[:2])
+
+
+# decoder class -> (unpack: valid address string -> the bytes below the checksum layer,
+#                   pack: bytes -> address string with a VALID checksum / envelope)
+FORMATS = {
+    "b58check": (lambda s: b58d(s)[:-4], lambda p: b58e(p + _sha256d4(p))),
+    "XrpAddrDecoder": (lambda s: b58d(s, B58_XRP)[:-4], lambda p: b58e(p + _sha256d4(p), B58_XRP)),
+    "EosAddrDecoder": (lambda s: b58d(s[3:])[:-4], lambda p: "EOS" + b58e(p + _ripemd160(p)[:4])),
+    "ErgoP2PKHAddrDecoder": (lambda s: b58d(s)[:-4], lambda p: b58e(p + _blake2b(p, 32)[:4])),
+    "SolAddrDecoder": (lambda s: b58d(s), lambda p: b58e(p)),
+    "AlgoAddrDecoder": (lambda s: _b32d(s)[:-4], lambda p: _b32e(p + _sha512_256(p)[-4:])),
+    "XlmAddrDecoder": (lambda s: _b32d(s)[:-2], lambda p: _b32e(p + _crc16_xmodem_le(p))),
+    "NanoAddrDecoder": (lambda s: _b32d("1111" + s[5:], NANO_ALPH)[3:-5],
+                        lambda p: "nano_" + _b32e(bytes(3) + p + _blake2b(p, 5)[::-1], NANO_ALPH)[4:]),
+    "FilSecp256k1AddrDecoder": (lambda s: _b32d(s[2:], FIL_ALPH)[:-4],
+                                lambda p: "f1" + _b32e(p + _blake2b(b"\x01" + p, 4), FIL_ALPH)),
+    "NimAddrDecoder": (lambda s: _b32d(s.replace(" ", "")[4:], NIM_ALPH),
+                       lambda p: (lambda t: " ".join(("NQ" + _nim_check(t) + t)[k:k + 4] for k in range(0, len(t) + 4, 4)))(_b32e(p, NIM_ALPH))),
+    "ss58": (lambda s: b58d(s)[:-2], _ss58),
+    "xmr": (lambda s: xmr58d(s)[:-4], lambda p: xmr58e(p + _keccak(p)[:4])),
+}
+FORMAT_OF = {"P2PKHAddrDecoder": "b58check", "P2SHAddrDecoder": "b58check", "NeoLegacyAddrDecoder": "b58check",
+             "NeoN3AddrDecoder": "b58check", "TrxAddrDecoder": "b58check", "XtzAddrDecoder": "b58check",
+             "SubstrateEd25519AddrDecoder": "ss58", "SubstrateSr25519AddrDecoder": "ss58", "SS58Decoder": "ss58",
+             "XmrAddrDecoder": "xmr", "XmrIntegratedAddrDecoder": "xmr"}
+
+
+def payload_variants(pl, rng):
+    """Corruptions of the bytes below a checksum layer: every short prefix, truncation and extension by 1 / 8 / 32 bytes
+    at either end, first-byte (version / net / type) changes, fills, bit flips."""
+    n = len(pl)
+    out = [pl[:i] for i in range(min(n, 12) + 1)] + [pl[:max(n - k, 0)] for k in (1, 2, 4, 8, 9, 32, 33)] + [pl[k:] for k in (1, 2, 8, 32)]
+    for k in (1, 8, 32):
+        out += [pl + bytes(k), pl + b"\xff" * k, pl + bytes(range(k)), bytes(k) + pl, pl + pl[:k]]
+    out += [pl + pl, bytes(n), b"\xff" * n, pl[::-1]]
+    if n:
+        out += [bytes([pl[0] ^ x]) + pl[1:] for x in (1, 2, 8, 0x40, 0x80, 0xff)] + [bytes([b]) + pl[1:] for b in (0, 1, 5, 0x12, 0x13, 0x2a, 0x30, 0x90)]
+        out += [pl[:-1] + bytes([pl[-1] ^ 1]), pl[:1] + b"\xff" * (n - 1), pl[:1] + bytes(n - 1), pl[:1] + b"\x01" + bytes(max(n - 2, 0))]
+        for _ in range(10):
+            i = rng.randrange(n)
+            out.append(pl[:i] + bytes([pl[i] ^ (1 << rng.randrange(8))]) + pl[i + 1:])
+    if n > 40:      # the middle fields (second key / hash) and a trailing field of 8 bytes (payment id) dropped / replaced
+        out += [pl[:n // 2] + b"\xff" * (n - n // 2), pl[:33] + bytes(n - 33), pl[:-8], pl[:-8] + bytes(8), pl[:1] + pl[33:65] + pl[1:33] + pl[65:]]
+    return out
+
+
 def payload_mutations(name, s, rng):
-    """Corrupt below the checksum layer and re-encode with a valid checksum."""
-    out = []
+    """Corrupt below the checksum layer and re-encode with a valid checksum (own codecs, FORMATS)."""
+    e = ENTRIES.get(name) or {}
+    dname = e["meta"][0] if e.get("meta") else name.split(".")[0]
+    fmt = FORMAT_OF.get(dname, dname)
+    if fmt not in FORMATS:
+        fmt = "b58check"            # extended keys, WIF, BIP-38, SLIP-32 ...: Base58Check if the seed is one
+    unpack, pack = FORMATS[fmt]
     try:
-        if "Bech32" in name or s[:3] in ("bc1", "cos"):
-            return out
-        raw = Base58Decoder.CheckDecode(s)
-        for i in list(range(len(raw) + 1))[:80]:
-            out.append(Base58Encoder.CheckEncode(raw[:i]))
-        for _ in range(12):
-            i = rng.randrange(len(raw))
-            out.append(Base58Encoder.CheckEncode(raw[:i] + bytes([raw[i] ^ 0xff]) + raw[i + 1:]))
-        out.append(Base58Encoder.CheckEncode(raw + b"\x00"))
+        pl = unpack(s)
+        if pack(pl).replace(" ", "") != s.replace(" ", ""):
+            return []               # the seed is not of this format
     except Exception:  # noqa
-        pass
+        return []
+    out = []
+    for v in payload_variants(pl, rng):
+        try:
+            out.append(pack(v))
+        except Exception:  # noqa
+            pass
     return out
 
 
@@ -409,6 +594,23 @@ def cashaddr_make(hrp, data5):
     return hrp + ":" + "".join(B32[d] for d in data5 + [(pm >> 5 * (7 - i)) & 31 for i in range(8)])
 
 
+def _cvt(data, frm, to, pad):
+    acc = bits = 0
+    out = []
+    for v in data:
+        acc = (acc << frm) | v
+        bits += frm
+        while bits >= to:
+            bits -= to
+            out.append((acc >> bits) & ((1 << to) - 1))
+    if pad:
+        if bits:
+            out.append((acc << (to - bits)) & ((1 << to) - 1))
+    elif bits >= frm or ((acc << (to - bits)) & ((1 << to) - 1)):
+        return None
+    return out
+
+
 def bech32_family_mutations(s, rng):
     out = []
     low = s.lower()
@@ -434,9 +636,162 @@ def bech32_family_mutations(s, rng):
         if data:
             i = rng.randrange(len(data))
             variants.append(data[:i] + [rng.randrange(32)] + data[i + 1:])
+    # byte-level variants of the payload under the 5-bit layer (header / length / version changes): the whole data part as
+    # bytes (Bech32, CashAddr: first byte = header / version byte) and first symbol + program (SegWit)
+    for lead, body in (([], data), (data[:1], data[1:])):
+        b8 = _cvt(body, 5, 8, False)
+        if b8 is None:
+            continue
+        for v in payload_variants(bytes(b8), rng):
+            variants.append(lead + _cvt(list(v), 8, 5, True))
+        if lead:
+            for ver in (0, 1, 2, 15, 16, 17, 31):
+                variants.append([ver] + body)
     for v in variants:
         for m in mk:
             out.append(m(v))
+    return out
+
+
+# ---- Cardano Byron addresses: CBOR-level mutations under a VALID CRC-32, encoded by an own minimal RFC 8949 encoder
+#      (not cbor2: the library's decoder is cbor2, the inputs must not depend on it)
+class CTag:
+    def __init__(self, tag, value):
+        self.tag, self.value = tag, value
+
+
+class CSimple:
+    def __init__(self, v):
+        self.v = v
+
+
+class CRaw:
+    """already encoded bytes spliced in as one item"""
+    def __init__(self, b):
+        self.b = b
+
+
+def _cb_head(major, n):
+    if n < 24:
+        return bytes([major << 5 | n])
+    for info, w in ((24, 1), (25, 2), (26, 4), (27, 8)):
+        if n < 1 << (8 * w):
+            return bytes([major << 5 | info]) + n.to_bytes(w, "big")
+    raise ValueError(n)
+
+
+def cb(o):
+    if isinstance(o, CRaw):
+        return o.b
+    if isinstance(o, CTag):
+        return _cb_head(6, o.tag) + cb(o.value)
+    if isinstance(o, CSimple):
+        return bytes([0xe0 | o.v]) if o.v < 24 else bytes([0xf8, o.v])
+    if o is None:
+        return b"\xf6"
+    if o is True or o is False:
+        return b"\xf5" if o else b"\xf4"
+    if isinstance(o, int):
+        return _cb_head(0, o) if o >= 0 else _cb_head(1, -1 - o)
+    if isinstance(o, (bytes, bytearray)):
+        return _cb_head(2, len(o)) + bytes(o)
+    if isinstance(o, str):
+        e = o.encode("utf-8")
+        return _cb_head(3, len(e)) + e
+    if isinstance(o, (list, tuple)):
+        return _cb_head(4, len(o)) + b"".join(cb(x) for x in o)
+    if isinstance(o, dict):
+        return _cb_head(5, len(o)) + b"".join(cb(k) + cb(v) for k, v in o.items())
+    raise TypeError(type(o))
+
+
+# items on which cbor2's own semantic-tag decoders raise something that is no CBORDecodeError (decimal fraction /
+# bigfloat with an ill-typed or huge exponent / mantissa): TypeError, OverflowError, decimal.InvalidOperation, decimal.Overflow
+CBOR2_POISON = [CTag(4, [0, None]), CTag(4, [0, b"a"]), CTag(4, [0, "a"]), CTag(4, [2 ** 64 - 1, 0]), CTag(4, [-2 ** 64, 0]),
+                CTag(5, [1, "a"]), CTag(5, [2 ** 64 - 1, 0]), CTag(4, ["a", 0]), CTag(4, [b"a", 0])]
+
+
+def byron_addr(payload_obj, tag=24, crc=None, outer=None):
+    """Base58(CBOR [tag(payload bytes), crc32(payload bytes)]) -- the CRC is valid unless given."""
+    import binascii
+    p = payload_obj if isinstance(payload_obj, (bytes, bytearray)) else cb(payload_obj)
+    o = [CTag(tag, bytes(p)), binascii.crc32(p) if crc is None else crc] if outer is None else outer
+    return b58e(cb(o))
+
+
+def byron_payload_mutations(s, rng):
+    import binascii
+    out = []
+    try:
+        import cbor2
+        pay = cbor2.loads(cbor2.loads(b58d(s))[0].value)       # the valid seed, read with the reference decoder
+        rh, enc = pay[0], (cbor2.loads(pay[1][1]) if 1 in pay[1] else b"")
+    except Exception:  # noqa
+        return out
+    a_ok = {1: cb(enc)} if enc else {}
+    attrs = [{}, a_ok, {1: cb(bytes(range(40)))}, {1: 5}, {1: "a"}, {1: [1]}, {1: None}, {1: True}, {2: 5}, {2: "x"}, {2: None},
+             {2: cb(764824073)}, {1: cb(enc or b"x"), 2: cb(7)}, {1: cb(5)}, {1: cb("xx")}, {1: cb([1, 2])}, {1: cb(None)},
+             {1: b"\xff"}, {1: b""}, {1: b"\x58"}, {1: b"\x5f\x41a\xff"}, {1: cb(enc or b"x") + b"\x00"}, {3: b""}, {1: cb(b""), 2: 7},
+             {1: cb(b""), 2: cb(1), 3: cb(2)}, {"1": cb(b"")}, {0: b""}, {1: cb(CTag(2, b"\x01"))}, {2: cb("x")}, {2: b"\xff"},
+             [], 0, b"", "a", None, {1: {}}, {(): b""}]
+    for p in CBOR2_POISON[:4]:
+        attrs += [{1: cb(p)}, {2: cb(p)}, {1: p}, p]
+    for a in attrs:
+        for ty in (0, 1):
+            out.append(byron_addr([rh, a, ty]))
+    for ty in (2, 7, 23, 24, -1, 2 ** 32, 2 ** 64 - 1, True, False, None, "0", b"\x00", [0], CRaw(b"\xf9\x00\x00"), CRaw(b"\xfb" + bytes(8))):
+        out.append(byron_addr([rh, a_ok, ty]))
+    for r in (rh[:27], rh + b"\x00", b"", rh.hex(), 5, None, [rh], CTag(2, rh), rh[:27] + b"\xff"):
+        out.append(byron_addr([r, a_ok, 0]))
+    for pl in ([rh, a_ok], [rh, a_ok, 0, 0], [], 5, b"x", "x", {0: rh}, None, [[rh, a_ok, 0]], CTag(24, [rh, a_ok, 0])):
+        out.append(byron_addr(pl))
+    pl = cb([rh, a_ok, 0])
+    crc = binascii.crc32(pl)
+    for p in CBOR2_POISON:
+        out.append(byron_addr(p))                                   # payload that is a poison item (valid CRC)
+        out.append(byron_addr(pl, outer=[CTag(24, pl), p]))          # ... in place of the CRC
+        out.append(byron_addr(pl, outer=p))                          # ... in place of the whole address
+        out.append(byron_addr(pl, outer=[p, crc]))
+        out.append(byron_addr(pl, outer=[CTag(24, p), crc]))
+    # outer structure
+    for o in ([CTag(24, 5), 0], [CTag(24, 5), crc], [CTag(24, "abc"), 0], [CTag(24, [1]), 0], [CTag(24, None), 0], [CTag(24, {}), 0],
+              [CTag(24, CTag(24, pl)), crc], [CTag(25, pl), crc], [CTag(0, pl), crc], [CTag(2 ** 32, pl), crc], [pl, crc],
+              [CTag(24, pl)], [CTag(24, pl), crc, 0], [CTag(24, pl), crc ^ 1], [CTag(24, pl), -crc - 1], [CTag(24, pl), True],
+              [CTag(24, pl), str(crc)], [CTag(24, pl), 2 ** 64 - 1], [CTag(24, pl), None], [CTag(24, pl), CRaw(b"\xfb" + bytes(8))],
+              {0: CTag(24, pl)}, CTag(24, pl), pl, crc, [], [[CTag(24, pl), crc]], CTag(55799, [CTag(24, pl), crc]),
+              [CTag(24, pl[:-1]), binascii.crc32(pl[:-1])], [CTag(24, pl + b"\x00"), binascii.crc32(pl + b"\x00")],
+              [CTag(24, b""), 0], CRaw(b"\x9f" + cb(CTag(24, pl)) + cb(crc) + b"\xff"), CRaw(cb([CTag(24, pl), crc]) + b"\x00")):
+        out.append(byron_addr(pl, outer=o))
+    return out
+
+
+def byron_hdpath_mutations(key, rng):
+    """DecryptHdPath: authenticated ciphertexts (ChaCha20-Poly1305 by pycryptodome, the library's nonce) of plaintexts that
+    are / are not the indefinite-length CBOR array of key indices."""
+    from Crypto.Cipher import ChaCha20_Poly1305
+    from bip_utils.addr.ada_byron_addr import AdaByronAddrConst
+
+    def enc(pt):
+        c = ChaCha20_Poly1305.new(key=key, nonce=AdaByronAddrConst.CHACHA20_POLY1305_NONCE)
+        c.update(AdaByronAddrConst.CHACHA20_POLY1305_ASSOC_DATA)
+        ct, tag = c.encrypt_and_digest(pt)
+        return ct + tag
+    pts = [b"", b"\x9f", b"\xff", b"\x9f\xff", b"\x9f\x00\xff", b"\x9f\x01\x02\xff", b"\x9f\x17\x18\x18\xff", b"\x9f\x18\xff", b"\x9f\x18\xff\xff",
+           b"\x9f\x19\x01\x00\xff", b"\x9f\x19\x01\xff", b"\x9f\x1a\x80\x00\x00\x00\x1a\xff\xff\xff\xff\xff", b"\x9f\x1b" + bytes(3) + b"\x01" + bytes(4) + b"\xff",
+           b"\x9f\x1b" + b"\xff" * 8 + b"\xff", b"\x9f\x1b\xff\xff", b"\x9f\x1c\xff", b"\x9f\x1f\xff", b"\x9f\x20\xff", b"\x9f\x37\xff", b"\x9f\x38\x00\xff",
+           b"\x9f\x3b" + b"\xff" * 8 + b"\xff", b"\x9f\x40\xff", b"\x9f\x41\x00\xff", b"\x9f\x60\xff", b"\x9f\x80\xff", b"\x9f\xa0\xff", b"\x9f\xc0\xff",
+           b"\x9f\xc4\xff", b"\x9f\xe0\xff", b"\x9f\xf4\xff", b"\x9f\xf5\xff", b"\x9f\xf6\xff", b"\x9f\xf7\xff", b"\x9f\xf8\xff", b"\x9f\xf9\xff",
+           b"\x9f\xfb\xff", b"\x9f\x9f\xff\xff", b"\x9f\x5f\xff", b"\x9f\x7f\xff", b"\x9f\xbf\xff", b"\x82\x01\x02", b"\x9f\x01\x02", b"\x01\x02\xff",
+           b"\x9f\x1a\x80\x00\x00\x00\x1a\x80\x00\x00\x01\xff", b"\x9f" + b"\x00" * 300 + b"\xff", b"\x9f\xff\xff", b"\x9f\xff\x00\xff", b"\x9f\x00\xff\x00"]
+    for _ in range(10):
+        n = rng.randrange(1, 8)
+        pts.append(b"\x9f" + bytes(rng.randrange(256) for _ in range(n)) + b"\xff")
+    out = []
+    for p in pts:
+        e = enc(p)
+        out.append(e)
+    e = enc(b"\x9f\x01\x02\xff")
+    out += [e[:-1], e + b"\x00", e[:-16], e[-16:], bytes([e[0] ^ 1]) + e[1:], e[:-1] + bytes([e[-1] ^ 1])]
     return out
 
 
@@ -522,8 +877,9 @@ class Q:
 
 
 class M:
-    def __init__(self, model, impl=None, shape=None, merge=None):
-        self.model, self.impl, self.shape, self.merge = model, impl, shape, merge or {}
+    def __init__(self, model, impl=None, shape=None, merge=None, cap=None):
+        # cap = (quick, thorough): model comparisons beyond the junk list and the seeds (None: the generator's default)
+        self.model, self.impl, self.shape, self.merge, self.cap = model, impl, shape, merge or {}, cap
 
 
 def _props(mod):
@@ -727,8 +1083,159 @@ def build_model_map():
     MM["SubstrateSr25519AddrDecoder.DecodeAddr"] = M(lambda m, x: m.call("addrtext.substrate_decode", 4, 0, x))
     MM["SplToken.GetAssociatedTokenAddress"] = M(
         lambda m, x: m.call("serbip.spl_get_ata", x, "EPjFWdd5AufqSSqeM2qN1xzybapC8G4wEGGkZwyTDt1v"))
+    first_wave = set(MM)
+    build_model_map_c14b(MM)
+    # the second wave shares the time budget of the first: fewer sampled mutations per entry point; the models whose every
+    # call runs elliptic-curve multiplications in the reference arithmetic of harness/ecref.py (10-70 ms per call) fewer still
+    heavy = ("Monero.FromSeed", "Monero.FromPrivateSpendKey", "Monero.FromWatchOnly", "CardanoByronLegacy.FromSeed",
+             "Cip1852[CARDANO_ICARUS].FromSeed")
+    for n in set(MM) - first_wave:
+        if n in heavy or n.endswith("Bip32.FromSeed") or n.endswith("Bip32.FromSeedAndPath") or n.startswith("Bip32KholawEd25519.FromSeed"):
+            MM[n].cap = (10, 150)
+        else:
+            MM[n].cap = MM[n].cap or (40, 600)
     for n in MM:
         assert n in ENTRIES, "MODEL_MAP names an entry point that is not in the census: " + n
+
+
+def build_model_map_c14b(MM):
+    """Second wave: the Bech32-family codecs and address decoders (groups bech32, addrbech), the Cardano / Monero
+    decoders and wallets (group cardmon), and the thin compositions of Extract/Api_c14b.v (group c14b)."""
+    from bip_utils.monero.conf import MoneroConfGetter
+    # ---- Bech32 / SegWit / CashAddr codecs (C10: group bech32); the hrp is the one of the census call
+    MM["Bech32Decoder.Decode"] = M(lambda m, x: m.call("bech32.bech32_decode", "cosmos", x))
+    MM["SegwitBech32Decoder.Decode"] = M(lambda m, x: m.call("bech32.segwit_decode", "bc", x),
+                                         impl=lambda x: list(SegwitBech32Decoder.Decode("bc", x)))
+    MM["BchBech32Decoder.Decode"] = M(lambda m, x: m.call("bech32.cash_decode", "bitcoincash", x),
+                                      impl=lambda x: list(BchBech32Decoder.Decode("bitcoincash", x)))
+    # WifDecoder.Decode(valid string, net_ver bytes): the Base58Check layer accepts, the version argument varies
+    MM["WifDecoder.Decode[net_ver]"] = via("C13", "wif_decode", "serbip", lambda b: [WIF_VALID, b])
+    # ---- address decoders on the Bech32 family (C09: group addrbech), parameters from the coin tables
+    ab = {
+        "AtomAddrDecoder": lambda p: (lambda m, x: m.call("addrbech.atom_decode", p["hrp"], x)),
+        "AvaxPChainAddrDecoder": lambda p: (lambda m, x: m.call("addrbech.avax_decode", 0, x)),
+        "AvaxXChainAddrDecoder": lambda p: (lambda m, x: m.call("addrbech.avax_decode", 1, x)),
+        "EgldAddrDecoder": lambda p: (lambda m, x: m.call("addrbech.egld_decode", x)),
+        "ZilAddrDecoder": lambda p: (lambda m, x: m.call("addrbech.zil_decode", x)),
+        "InjAddrDecoder": lambda p: (lambda m, x: m.call("addrbech.ethb32_decode", 0, x)),
+        "OkexAddrDecoder": lambda p: (lambda m, x: m.call("addrbech.ethb32_decode", 1, x)),
+        "OneAddrDecoder": lambda p: (lambda m, x: m.call("addrbech.ethb32_decode", 2, x)),
+        "P2WPKHAddrDecoder": lambda p: (lambda m, x: m.call("addrbech.p2wpkh_decode", p["hrp"], x)),
+        "P2TRAddrDecoder": lambda p: (lambda m, x: m.call("addrbech.p2tr_decode", p["hrp"], x)),
+        "BchP2PKHAddrDecoder": lambda p: (lambda m, x: m.call("addrbech.bch_decode", p["hrp"], p["net_ver"], x)),
+        "BchP2SHAddrDecoder": lambda p: (lambda m, x: m.call("addrbech.bch_decode", p["hrp"], p["net_ver"], x)),
+        # AdaShelleyAddrDecoder(net_tag): Model/AddrAdaShelley.v over the Bech32 decoder (group cardmon); net 0 main, 1 test
+        "AdaShelleyAddrDecoder": lambda p: (lambda m, x: m.call(
+            "cardmon.ada_shelley_decode", 0 if p["net_tag"] == AdaShelleyAddrNetworkTags.MAINNET else 1, x)),
+    }
+    for name, e in ENTRIES.items():
+        if e["meta"] and e["meta"][0] in ab:
+            dname, params = e["meta"]
+            if set(params) - {"hrp", "net_ver", "net_tag"}:
+                continue
+            MM[name] = M(ab[dname](params))
+    # ---- Cardano / Monero address decoders (C16, C18: group cardmon)
+    MM["AdaShelleyStakingAddrDecoder.DecodeAddr"] = M(lambda m, x: m.call("cardmon.ada_staking_decode", 0, x))
+    MM["AdaShelleyRewardAddrDecoder.DecodeAddr"] = M(lambda m, x: m.call("cardmon.ada_staking_decode", 0, x))
+    MM["AdaByronAddrDecoder.DecodeAddr"] = M(lambda m, x: m.call("cardmon.ada_byron_decode", x))
+    MM["AdaByronAddrDecoder.DecodeAddr[legacy]"] = M(lambda m, x: m.call("cardmon.ada_byron_decode", x))
+    mconf = MoneroConfGetter.GetConfig(MoneroCoins.MONERO_MAINNET)
+    MM["XmrAddrDecoder.DecodeAddr"] = M(lambda m, x: m.call("cardmon.xmr_addr_decode", x, mconf.AddrNetVersion(), []))
+    MM["XmrIntegratedAddrDecoder.DecodeAddr"] = M(
+        lambda m, x: m.call("cardmon.xmr_addr_decode", x, mconf.IntegratedAddrNetVersion(), [bytes(range(8))]))
+    MM["XmrIntegratedAddrDecoder.DecodeAddr[payment_id=None]"] = M(
+        lambda m, x: m.call("cardmon.xmr_addr_decode", x, mconf.IntegratedAddrNetVersion(), []))
+    MM["XmrIntegratedAddrDecoder.DecodeAddr[payment_id=7 bytes]"] = M(
+        lambda m, x: m.call("cardmon.xmr_addr_decode", x, mconf.IntegratedAddrNetVersion(), [bytes(7)]))
+    mtest = MoneroConfGetter.GetConfig(MoneroCoins.MONERO_TESTNET)
+    MM["XmrAddrDecoder.DecodeAddr[MONERO_TESTNET]"] = M(lambda m, x: m.call("cardmon.xmr_addr_decode", x, mtest.AddrNetVersion(), []))
+    # ---- Monero wallet constructors (C16): [ctor; a; b; net 0 = main; op 0 = keys]; outcome class (objects)
+    c16 = _props("C16")
+    view = Monero.FromSeed(SEED[:32]).PrivateViewKey().Raw().ToBytes()
+    MM["Monero.FromSeed"] = M(lambda m, x: c16.fix_foreign(m.call("cardmon.xmr_wallet", 0, x, b"", 0, 0, [])), shape="class")
+    MM["Monero.FromPrivateSpendKey"] = M(lambda m, x: c16.fix_foreign(m.call("cardmon.xmr_wallet", 1, x, b"", 0, 0, [])), shape="class")
+    MM["Monero.FromWatchOnly"] = M(lambda m, x: c16.fix_foreign(m.call("cardmon.xmr_wallet", 3, view, x, 0, 0, [])), shape="class")
+    # ---- the thin compositions of Model/C14b.v (group c14b)
+    ff = c16.fix_foreign
+    MM["MoneroPrivateKey.FromBytes"] = M(lambda m, x: m.call("c14b.monero_priv_from_bytes", x), shape="class")
+    MM["MoneroPublicKey.FromBytes"] = M(lambda m, x: m.call("c14b.monero_pub_from_bytes", x), shape="class")
+    # FromString of the mnemonic containers (ToList() of the object)
+    for k, cls in (("Algorand", AlgorandMnemonic), ("ElectrumV1", ElectrumV1Mnemonic), ("ElectrumV2", ElectrumV2Mnemonic)):
+        MM[k + "Mnemonic.FromString"] = M(lambda m, x: m.call("c14b.bip39_mnemonic_from_string", x),
+                                          impl=(lambda c_: lambda x: c_.FromString(x).ToList())(cls))
+    for k in ("Monero", "MoneroNoChk"):
+        MM[k + "Mnemonic.FromString"] = M(lambda m, x: m.call("c14b.mnemonic_from_string", x),
+                                          impl=lambda x: MoneroMnemonic.FromString(x).ToList())
+    # Cardano seed generators: language None = automatic detection
+    MM["CardanoIcarusSeedGenerator"] = M(lambda m, x: m.call("c14b.icarus_seed", [], x))
+    MM["CardanoByronLegacySeedGenerator"] = M(lambda m, x: m.call("c14b.byron_legacy_seed", [], x))
+    # Bip32 classes without a C05 class id: 3 nist256p1, 4 ed25519-blake2b; Icarus / Byron legacy use the Kholaw keys (1)
+    c05 = _props("C05")
+    for cname, cid, ver in (("Bip32Slip10Nist256p1", 3, c05.MAIN), ("Bip32Slip10Ed25519Blake2b", 4, c05.MAIN),
+                            ("CardanoIcarusBip32", 1, c05.KHOLAW), ("CardanoByronLegacyBip32", 1, c05.KHOLAW)):
+        MM[cname + ".FromExtendedKey"] = M(
+            (lambda c_, v_: lambda m, x: m.call("c14b.bip32_from_extended", c_, v_[0], v_[1], x))(cid, ver), shape="class")
+        MM[cname + ".FromPrivateKey"] = M((lambda c_: lambda m, x: m.call("c14b.bip32_from_private_key", c_, x))(cid), shape="class")
+        MM[cname + ".FromPublicKey"] = M((lambda c_: lambda m, x: m.call("c14b.bip32_from_public_key", c_, x))(cid), shape="class")
+    # master keys of the Khovratovich-Law family: scheme 0 Kholaw, 1 Icarus, 2 Byron legacy; FromSeedAndPath(seed, str)
+    for cname, scheme in (("Bip32KholawEd25519", 0), ("CardanoIcarusBip32", 1), ("CardanoByronLegacyBip32", 2)):
+        sd = SEED[:32] if scheme == 2 else SEED
+        MM[cname + ".FromSeed"] = M((lambda s_: lambda m, x: ff(m.call("c14b.kh_from_seed", s_, x)))(scheme), shape="class")
+        MM[cname + ".FromSeedAndPath"] = M(
+            (lambda s_, sd_: lambda m, x: ff(m.call("c14b.kh_from_seed_and_path_str", s_, sd_, x)))(scheme, sd), shape="class")
+    MM["CardanoByronLegacy.FromSeed"] = M(lambda m, x: ff(m.call("c14b.kh_from_seed", 2, x)), shape="class")
+    # constructor + one derivation step (Bip32KholawEd25519): default key data of FromPrivateKey = zero chain code, depth 0
+    MM["Bip32KholawEd25519.FromPrivateKey.ChildKey"] = M(
+        lambda m, x: ff(m.call("c14b.kh_key_child", 0, 0, x, bytes(32), 0, Z(0))), shape="class", cap=(10, 150))
+
+    def ext_child(m, x):
+        r = m.call("serbip.c05_from_extended", 1, c05.KHOLAW[0], c05.KHOLAW[1], x)
+        if r[0] == "err":
+            return r
+        is_pub, key, kd = r[1]
+        return ff(m.call("c14b.kh_key_child", 0, int(bool(is_pub)), key, kd[2], int(kd[0]), Z(0)))
+    MM["Bip32KholawEd25519.FromExtendedKey.DerivePath"] = M(ext_child, shape="class", cap=(10, 150))
+    # AdaByronAddrDecoder.DecryptHdPath(bytes, the wallet's HD path key)
+    MM["AdaByronAddrDecoder.DecryptHdPath"] = M(lambda m, x: m.call("c14b.byron_decrypt_path", BYRON_HD_KEY, x), shape="class")
+    # Bip44 / Bip49 / Bip84 / Bip86 / Cip1852 constructors: the coin's Bip32 class id and key net versions
+    c03 = _props("C03")
+    from bip_utils.bip.conf.bip44 import Bip44ConfGetter
+    from bip_utils.bip.conf.bip49 import Bip49ConfGetter
+    from bip_utils.bip.conf.bip84 import Bip84ConfGetter
+    from bip_utils.bip.conf.bip86 import Bip86ConfGetter
+    from bip_utils.cardano.cip1852.conf import Cip1852ConfGetter
+    cls_id = {"Bip32Slip10Secp256k1": 0, "CardanoIcarusBip32": 1, "Bip32Slip10Ed25519": 2}
+    for hc, coin, getter in ((Bip44, Bip44Coins.BITCOIN, Bip44ConfGetter), (Bip44, Bip44Coins.SOLANA, Bip44ConfGetter),
+                             (Bip49, Bip49Coins.LITECOIN, Bip49ConfGetter), (Bip84, Bip84Coins.BITCOIN, Bip84ConfGetter),
+                             (Bip86, Bip86Coins.BITCOIN, Bip86ConfGetter),
+                             (Cip1852, Cip1852Coins.CARDANO_ICARUS, Cip1852ConfGetter)):
+        conf = getter.GetConfig(coin)
+        cid = cls_id[conf.Bip32Class().__name__]
+        vpub, vpriv = conf.KeyNetVersions().Public(), conf.KeyNetVersions().Private()
+        tag = "%s[%s]" % (hc.__name__, coin.name)
+        MM[tag + ".FromExtendedKey"] = M(
+            (lambda c_, a_, b_: lambda m, x: m.call("c14b.bip44_from_extended", c_, a_, b_, x))(cid, vpub, vpriv), shape="class")
+        MM[tag + ".FromPrivateKey"] = M((lambda c_: lambda m, x: m.call("c14b.bip44_from_private_key", c_, x))(cid), shape="class")
+        MM[tag + ".FromPublicKey"] = M((lambda c_: lambda m, x: m.call("c14b.bip44_from_public_key", c_, x))(cid), shape="class")
+        if cid == 1:     # Cip1852.FromSeed: the Icarus master key, then Bip44Base.__init__
+            MM[tag + ".FromSeed"] = M(lambda m, x: ff(m.call("c14b.kh_bip44_from_seed", 1, x)), shape="class")
+        else:            # the SLIP-0010 master key (group deriv: curve 0 secp256k1, 2 ed25519); the depth check is vacuous at depth 0
+            MM[tag + ".FromSeed"] = M(
+                (lambda c_: lambda m, x: m.call("deriv.slip10_seed_path", c_, 0, c03.FUEL, [], x, 0, []))(cid), shape="class")
+    # Sr25519 / Substrate key layers
+    MM["Sr25519PrivateKey.IsValidBytes"] = M(lambda m, x: m.call("c14b.sr_priv_is_valid", x))
+    MM["Sr25519PublicKey.IsValidBytes"] = M(lambda m, x: m.call("c14b.sr_pub_is_valid", x))
+    MM["Sr25519Point.FromBytes"] = M(lambda m, x: m.call("c14b.sr_point_from_bytes", x),
+                                     impl=lambda x: (lambda p: [p.X(), p.Y()])(Sr25519Point.FromBytes(x)))
+    MM["SubstratePrivateKey.FromBytes"] = M(lambda m, x: m.call("c14b.substrate_priv_from_bytes", x), shape="class")
+    MM["SubstratePublicKey.FromBytes"] = M(lambda m, x: m.call("c14b.substrate_pub_from_bytes", x), shape="class")
+    MM["Substrate.FromPrivateKey"] = M(lambda m, x: m.call("c14b.substrate_from_private_key", x), shape="class")
+    MM["Substrate.FromPublicKey"] = M(lambda m, x: m.call("c14b.substrate_from_public_key", x), shape="class")
+    MM["Substrate.FromSeed"] = M(lambda m, x: m.call("c14b.substrate_from_seed", x), shape="class")
+    # Electrum wallets from a seed: v1 = FromPrivateKey; v2 = the secp256k1 master object (segwit: its child m/0')
+    MM["ElectrumV1.FromSeed"] = M(lambda m, x: m.call("serbip.electrum_v1_pub", 0, x, Z(0), Z(0)), shape="class")
+    MM["ElectrumV2Standard.FromSeed"] = M(lambda m, x: m.call("deriv.slip10_seed_path", 0, 0, c03.FUEL, [], x, 0, []), shape="class")
+    MM["ElectrumV2Segwit.FromSeed"] = M(lambda m, x: m.call("deriv.slip10_seed_path", 0, 0, c03.FUEL, [], x, 1, [1 << 31]), shape="class")
 
 
 from modeldrv import Z  # noqa: E402
@@ -767,15 +1274,44 @@ for _n in ENTRIES:
         FUNCS["model:" + _n] = _model_func(_n)
 
 
+def is_text_decoder(name):
+    """address decoders and text codecs: the entry points whose valid examples are fed to each other"""
+    return ENTRIES[name]["kind"] == "str" and not ENTRIES[name]["slow"] and \
+        ("DecodeAddr" in name or name.split("[")[0].endswith("Decoder.Decode"))
+
+
+def cross_pool():
+    """every valid example of every text decoder (cross-feeding: each is also an input of all the others)"""
+    pool, seen = [], set()
+    for n in sorted(ENTRIES):
+        if is_text_decoder(n):
+            for sd in ENTRIES[n]["seeds"]:
+                if sd not in seen and 8 <= len(sd) <= 200:
+                    seen.add(sd)
+                    pool.append(sd)
+    return pool
+
+
+def error_site(name, x):
+    """where the implementation stops on x: 'ok' or exception class + the constant head of its message"""
+    import re
+    try:
+        ENTRIES[name]["call"](x)
+        return "ok"
+    except Exception as ex:  # noqa
+        return type(ex).__name__ + ":" + re.split(r"[(0-9'\"]", str(ex))[0][:40]
+
+
 def generate(ctx):
     rng = ctx.rng
     import os
     only = os.environ.get("VERIF_ONLY")
     names = sorted(n for n in ENTRIES if not only or any(o in n for o in only.split(",")))
     per = ctx.n(10, 600)
-    mcap = ctx.n(160, 900)          # model comparisons per entry point beyond the junk list and the seeds
+    mcap0 = ctx.n(120, 900)         # model comparisons per entry point beyond the junk list and the seeds (default)
     n_model = 0
     truncated = []
+    pool = cross_pool()
     for name in names:
         e = ENTRIES[name]
         deep = []                   # mutations below the checksum / word layer: they reach the inner error sites
@@ -790,6 +1326,8 @@ def generate(ctx):
                     d = payload_mutations(name, s, rng) + bech32_family_mutations(s, rng)
                     if "Mnemonic" in name or "SeedGenerator" in name:
                         d += mutate_words(s, rng)
+                    if name.startswith("AdaByronAddrDecoder.DecodeAddr"):
+                        d += byron_payload_mutations(s, rng)
                     inputs += d
                     deep += d
         else:
@@ -797,6 +1335,23 @@ def generate(ctx):
             for b in e["seeds"]:
                 inputs.append(b)
                 inputs += mutate_bytes(b, rng, per)
+            if name == "AdaByronAddrDecoder.DecryptHdPath":
+                deep = byron_hdpath_mutations(BYRON_HD_KEY, rng)
+                inputs += deep
+        must = set()                # always model-compared: one representative per distinct error site of the cross-fed examples
+        if e["kind"] == "str" and is_text_decoder(name):
+            # every example of every other decoder goes through this one (error_site calls it); recorded as cases (and
+            # model-compared) are one representative per distinct error site, and every example that does not end in the family
+            sites, esc = {}, []
+            for x in pool:
+                if x not in e["seeds"]:
+                    k = error_site(name, x)
+                    sites.setdefault(k, x)
+                    if k != "ok" and k.split(":")[0] not in IN_FAMILY and not issubclass(getattr(__import__("builtins"), k.split(":")[0], object), ValueError):
+                        esc.append(x)
+            must = set(list(sites.values())[:ctx.n(10, 40)])
+            inputs += list(must) + esc
+            ctx.dist["cross_fed"] = ctx.dist.get("cross_fed", 0) + len(pool)
         seen, uniq = set(), []
         for x in inputs:
             if x not in seen:
@@ -804,8 +1359,9 @@ def generate(ctx):
                 uniq.append(x)
         modelled = name in MODEL_MAP and ctx.m is not None
         junk = set(JUNK_STR) | set(JUNK_BYTES)
-        fixed = junk | set(e["seeds"])
+        fixed = junk | set(e["seeds"]) | must
         rest = [x for x in uniq if x not in fixed]
+        mcap = ctx.n(*MODEL_MAP[name].cap) if (name in MODEL_MAP and MODEL_MAP[name].cap) else mcap0
         if e["slow"]:
             sample = set(e["seeds"]) | set(rest[:3]) | {"", "a", "z" * 11}      # scrypt per structurally valid input
         elif len(rest) <= mcap:
@@ -863,3 +1419,155 @@ def wif_net_ver_len_replay():
     except TypeError as ex:
         return "WifDecoder.Decode(%r, b'') raises TypeError (%s)" % (WIF_VALID, ex)
     return "WifDecoder.Decode(%r, b'') returned" % WIF_VALID
+
+
+# ---- AdaByronAddrDecoder.DecodeAddr: the two defects reached by the CBOR-level mutation stream
+BYRON_FNS = ("AdaByronAddrDecoder.DecodeAddr", "AdaByronAddrDecoder.DecodeAddr[legacy]",
+             "model:AdaByronAddrDecoder.DecodeAddr", "model:AdaByronAddrDecoder.DecodeAddr[legacy]")
+
+
+def _byron_classify(addr):
+    """Which defect of the Byron decoder (if any) an address string reaches, following the library's own order of checks:
+    'attrs' (a field that must be a byte string is something else), 'cbor2' (cbor2.loads itself raises something that
+    is neither CBORDecodeError nor ValueError), None (rejected by a check that exists, or accepted)."""
+    import binascii
+    import cbor2
+
+    def loads(b):
+        try:
+            return "ok", cbor2.loads(b)
+        except (cbor2.CBORDecodeError, ValueError, RecursionError):
+            return "rejected", None
+        except Exception:  # noqa
+            return "cbor2", None
+    try:
+        raw = Base58Decoder.Decode(addr)
+    except Exception:  # noqa
+        return None
+    k, o = loads(raw)
+    if k != "ok":
+        return "cbor2" if k == "cbor2" else None
+    if not (isinstance(o, (list, tuple)) and len(o) == 2 and isinstance(o[0], cbor2.CBORTag) and isinstance(o[1], int)):
+        return None
+    if o[0].tag != 24:
+        return None
+    val = o[0].value
+    if not isinstance(val, bytes):
+        return None if isinstance(val, str) else "attrs"      # Crc32 of a str is computed on its UTF-8 encoding
+    if binascii.crc32(val) != o[1]:
+        return None
+    k, p = loads(val)
+    if k != "ok":
+        return "cbor2" if k == "cbor2" else None
+    if not (isinstance(p, (list, tuple)) and len(p) == 3 and isinstance(p[0], bytes) and isinstance(p[1], dict)
+            and isinstance(p[2], int)) or len(p[0]) != 28:
+        return None
+    attrs = p[1]
+    if len(attrs) > 2 or (len(attrs) != 0 and 1 not in attrs and 2 not in attrs):
+        return None
+    v1 = None
+    for key in (1, 2):
+        if key in attrs:
+            if not isinstance(attrs[key], bytes):
+                return "attrs"
+            k, v = loads(attrs[key])
+            if k != "ok":
+                return "cbor2" if k == "cbor2" else None
+            if key == 1:
+                v1 = v
+    if p[2] != 0:               # AdaByronAddrTypes(type) == PUBLIC_KEY is checked before the concatenation
+        return None
+    return "attrs" if (v1 is not None and not isinstance(v1, bytes)) else None
+
+
+def _observed_escape(record):
+    if record.get("kind") == "direct":
+        return record.get("what", "").startswith("escapes with")
+    imp = record.get("impl", {})
+    return "err" in imp and imp["err"] not in IN_FAMILY
+
+
+def byron_attrs_types(fn, args, record):
+    """C14-BYRON-ATTRS: well-formed CBOR with a valid CRC whose tagged value / attribute value / attribute-1 content is
+    not a byte string -> TypeError."""
+    return fn in BYRON_FNS and _observed_escape(record) and "TypeError" in str(record) and _byron_classify(args[0]) == "attrs"
+
+
+BYRON_ATTRS_INPUTS = [
+    ("attribute value 5", lambda: byron_addr([bytes(28), {1: 5}, 0])),
+    ("attribute 1 = CBOR text string", lambda: byron_addr([bytes(28), {1: cb("xx")}, 0])),
+    ("tag-24 value 7", lambda: byron_addr(b"", outer=[CTag(24, 7), 0])),
+]
+
+
+def byron_attrs_types_replay():
+    bad = []
+    for what, mk in BYRON_ATTRS_INPUTS:
+        a = mk()
+        try:
+            AdaByronAddrDecoder.DecodeAddr(a)
+        except ValueError:
+            continue
+        except TypeError as ex:
+            bad.append("%s: DecodeAddr(%r) raises TypeError (%s)" % (what, a, str(ex)[:50]))
+            continue
+        bad.append("%s: DecodeAddr(%r) returned" % (what, a))
+    return "; ".join(bad) if bad else None
+
+
+def byron_cbor2_exc(fn, args, record):
+    """C14-BYRON-CBOR2-EXC: cbor2.loads raises TypeError / OverflowError / a decimal exception (ill-typed decimal
+    fraction or bigfloat tag) and the decoder only translates CBORDecodeError."""
+    return fn in BYRON_FNS and _observed_escape(record) and _byron_classify(args[0]) == "cbor2"
+
+
+BYRON_CBOR2_INPUTS = ["62LEus", "4i5esh9TA7i2JcbyZ", "PAsvD1i"]   # Base58 of c48200f6, c4821bffffffffffffffff00, c482006161
+
+
+def byron_cbor2_exc_replay():
+    bad = []
+    for a in BYRON_CBOR2_INPUTS:
+        try:
+            AdaByronAddrDecoder.DecodeAddr(a)
+        except ValueError:
+            continue
+        except Exception as ex:  # noqa
+            bad.append("DecodeAddr(%r) raises %s" % (a, type(ex).__name__))
+            continue
+        bad.append("DecodeAddr(%r) returned" % a)
+    return "; ".join(bad) if bad else None
+
+
+# ---- Khovratovich-Law child of an out-of-range parent key
+KH_CHAIN_FNS = ("Bip32KholawEd25519.FromPrivateKey.ChildKey", "Bip32KholawEd25519.FromExtendedKey.DerivePath")
+
+
+def _kh_left_part(fn, x):
+    """kL (little-endian integer of the first 32 key bytes) of the private key the input carries, or None."""
+    try:
+        if fn.endswith("FromPrivateKey.ChildKey"):
+            return int.from_bytes(x[:32], "little") if len(x) == 64 else None
+        raw = Base58Decoder.CheckDecode(x)
+        return int.from_bytes(raw[46:78], "little") if len(raw) == 110 else None
+    except Exception:  # noqa
+        return None
+
+
+def kholaw_child_overflow(fn, args, record):
+    """C14-KHOLAW-OVERFLOW: a private Khovratovich-Law key with kL >= 2^256 - 2^227 is accepted by the constructor; the
+    next private derivation renders 8*zL + kL in 32 bytes -> OverflowError."""
+    f = fn[6:] if fn.startswith("model:") else fn
+    if f not in KH_CHAIN_FNS or not _observed_escape(record) or "OverflowError" not in str(record):
+        return False
+    kl = _kh_left_part(f, args[0])
+    return kl is not None and kl >= 2 ** 256 - 2 ** 227
+
+
+def kholaw_child_overflow_replay():
+    try:
+        Bip32KholawEd25519.FromPrivateKey(b"\xff" * 64).ChildKey(0)
+    except OverflowError as ex:
+        return "Bip32KholawEd25519.FromPrivateKey(ff*64).ChildKey(0) raises OverflowError (%s)" % ex
+    except Exception:  # noqa
+        return None
+    return None
